@@ -226,6 +226,100 @@ fn check(c: &Case) -> CaseResult {
     check_layout(&c.l, &c.sched, c.asyncio, c.spill)
 }
 
+// ---- large archives: leaf spill in PMTiles::to_writer, big tiles on the read side ---------------------------
+
+#[derive(Clone, Debug, Serialize, Deserialize)]
+pub struct BigCase {
+    pub n: u32,
+    pub seed: u64,
+    pub internal: u8,
+    pub sched: Sched,
+    pub asyncio: bool,
+    pub big_tile: u32,
+}
+
+fn write_with(l: &crate::model::Logical, a: bool, sched: &Sched, cnt: &mut Counters) -> Result<(Vec<u8>, u64), Fail> {
+    let kind = if a { "async" } else { "sync" };
+    let arch = l.build(a).map_err(|e| Fail::new("C13/harness", e))?;
+    let mut s = Stream::writer(sched.clone());
+    let r = guarded("to_writer", || match arch {
+        crate::libx::Arch::New(pm) => pm.to_writer(&mut s),
+        crate::libx::Arch::Bytes(pm) => pm.to_writer(&mut s),
+        crate::libx::Arch::NewA(pm) => block_on(pm.to_async_writer(&mut s)),
+        crate::libx::Arch::BytesA(pm) => block_on(pm.to_async_writer(&mut s)),
+    })?;
+    io("PMTiles::to_writer", kind, r)?;
+    add(cnt, &s);
+    Ok((s.data(), s.pos()))
+}
+
+fn check_big(c: &BigCase) -> CaseResult {
+    let mut l = crate::model::logical::large(c.n as usize, c.seed, c.internal);
+    if c.big_tile > 0 {
+        // one really big tile (read in one piece by a correct reader, in chunks by an "optimised" one)
+        l.pool[0] = crate::model::ContentSpec { kind: 0, len: c.big_tile, seed: 99 };
+        l.tiles[0].1 = 0;
+    }
+    let kind = if c.asyncio { "async" } else { "sync" };
+    let mut c0 = Counters::default();
+    let mut c1 = Counters::default();
+    let (base, bpos) = write_with(&l, c.asyncio, &Sched::none(), &mut c0).map_err(|f| Fail::new("C13/harness", format!("unscheduled baseline failed: {}", f.msg)))?;
+    let (got, gpos) = write_with(&l, c.asyncio, &c.sched, &mut c1)?;
+    ensure!(got == base && gpos == bpos, format!("C13/write-differs/PMTiles::to_writer/{kind}"), "large archive ({} tiles, leaf spill: {}): image differs under the schedule: {} (final position {gpos} vs {bpos})", c.n, super::c01::spilled(&base), first_diff(&got, &base));
+    // read side: open through a scheduled stream and fetch tiles (incl. the big one)
+    let model = l.map();
+    let s = Stream::reader(base.clone(), c.sched.clone());
+    let s2 = s.clone();
+    let ids: Vec<u64> = model.keys().step_by(model.len() / 12 + 1).copied().chain([l.tiles[0].0]).collect();
+    if c.asyncio {
+        let mut pm = io("PMTiles::from_reader", kind, guarded("from_async_reader", || block_on(PMTiles::from_async_reader(s2)))?)?;
+        for id in &ids {
+            let t = io("PMTiles::get_tile_by_id", kind, guarded("get_tile_by_id_async", || block_on(pm.get_tile_by_id_async(*id)))?)?;
+            ensure!(t.as_ref() == model.get(id), format!("C13/read-differs/PMTiles::get_tile_by_id/{kind}"), "tile {id} ({} bytes) read through the fragmented stream differs", model[id].len());
+        }
+    } else {
+        let mut pm = io("PMTiles::from_reader", kind, guarded("from_reader", || PMTiles::from_reader(s2))?)?;
+        for id in &ids {
+            let t = io("PMTiles::get_tile_by_id", kind, guarded("get_tile_by_id", || pm.get_tile_by_id(*id))?)?;
+            ensure!(t.as_ref() == model.get(id), format!("C13/read-differs/PMTiles::get_tile_by_id/{kind}"), "tile {id} ({} bytes) read through the fragmented stream differs", model[id].len());
+        }
+    }
+    add(&mut c1, &s);
+    Ok(Meta::new(c1.shortened > 0 || c1.pendings > 0)
+        .label(c1.shortened > 0, "short-transfers")
+        .label(c1.pendings > 0, "pending-polls")
+        .label(super::c01::spilled(&base), "archive-write-with-leaf-spill")
+        .label(c.big_tile > 65_536, "tile>64KiB")
+        .label(c.asyncio, "async")
+        .label(!c.asyncio, "sync"))
+}
+
+fn big_cases(ctx: &Ctx) -> Vec<BigCase> {
+    let mut v = Vec::new();
+    let scheds = [
+        Sched::fixed_cap(1),
+        Sched::fixed_cap(7),
+        Sched::fixed_cap(1000),
+        Sched::fixed_cap(4096),
+        Sched::fixed_cap(65_536),
+        Sched { caps: vec![3, 100_000, 1, 70_000, 9], cycle: true, pending: vec![true, false, true, true, false], pending_cycle: true, fail_from: None },
+        Sched { caps: vec![16_384, 16_383, 1], cycle: true, pending: vec![], pending_cycle: false, fail_from: None },
+    ];
+    let n = ctx.tier.pick(1, 4);
+    for rep in 0..n {
+        for (k, sc) in scheds.iter().enumerate() {
+            for asyncio in [false, true] {
+                let internal = 1 + ((k + rep + usize::from(asyncio)) % 4) as u8;
+                // cap 1 on a large uncompressed archive means millions of calls: keep that one small
+                let tiles = if k == 0 { 5_000 } else { 14_000 + 1000 * rep as u32 };
+                let tiles = if k == 0 && internal == 1 { 4_500 } else { tiles };
+                v.push(BigCase { n: tiles, seed: ctx.seed + (k * 10 + rep) as u64, internal, sched: sc.clone(), asyncio, big_tile: [0u32, 70_001, 200_000, 65_537, 16_385, 300_001, 131_073][(k + rep) % 7] });
+            }
+        }
+    }
+    v
+}
+
 // ---- exhaustive small scope ----------------------------------------------------------------
 
 pub fn small_layout(internal: u8, depth: u8) -> Layout {
@@ -395,8 +489,13 @@ pub fn run(ctx: &Ctx) {
     let kmax = ctx.tier.pick(24u64, 64);
     let fixed_case = move |i: u64| -> (usize, Sched, bool, bool) { ((i % 8) as usize, Sched::fixed_cap(1 + (i / 16) as u32), (i / 8) % 2 == 1, i % 5 == 0) };
     run_indexed(ctx, "fixed-caps-1..k", kmax * 16, true, 1, |i| { let c = fixed_case(i); check_layout(&smalls[c.0], &c.1, c.2, c.3) }, |i| show(fixed_case(i)));
+    // large archives (leaf spill on the write side, big tiles on the read side)
+    let bigs = big_cases(ctx);
+    crate::engine::run_list(ctx, "large-archives-under-schedules", &bigs, check_big);
     // (f) random schedules on generated archives
     run_proptest(ctx, "random-schedules", PtCfg::new(ctx.lanes, ctx.tier.pick(60, 1500)), || strategy(ctx.tier.pick(120, 800)), check);
+    ctx.rec.floor("archive-write-with-leaf-spill", 8);
+    ctx.rec.floor("tile>64KiB", 6);
     for c in ["short-transfers", "pending-polls", "async", "sync", "leaf-spill", "archive-with-leaves", "internal-brotli", "internal-gzip", "internal-zstd", "internal-none"] {
         ctx.rec.floor(c, 20);
     }
@@ -405,6 +504,7 @@ pub fn run(ctx: &Ctx) {
 pub fn replay(sub: &str, case: &Value) -> Option<CaseResult> {
     match sub {
         "random-schedules" => Some(check(&super::de(case)?)),
+        "large-archives-under-schedules" => Some(check_big(&super::de(case)?)),
         "all-compositions-small-directories" => {
             let es: Vec<SEntry> = super::de(case.get("directory")?)?;
             Some(check_dir_composition(&es, case.get("composition_mask")?.as_u64()?))
